@@ -159,8 +159,10 @@ int main(void) {
         d = mj_makeData(m);
         int fixedcams = 1;
         for (int i = 0; i < m->ncam; i++) if (m->cam_mode[i] != mjCAMLIGHT_FIXED) fixedcams = 0;
-        printf("ok nq %d nv %d nbody %d njnt %d ngeom %d nsite %d ncam %d nmocap %d fixedcams %d\n", (int)m->nq, (int)m->nv,
+        printf("ok nq %d nv %d nbody %d njnt %d ngeom %d nsite %d ncam %d nmocap %d fixedcams %d", (int)m->nq, (int)m->nv,
                (int)m->nbody, (int)m->njnt, (int)m->ngeom, (int)m->nsite, (int)m->ncam, (int)m->nmocap, fixedcams);
+        pivec("jnt_type", m->jnt_type, (int)m->njnt);   // lets the generator verify its joint order (bodies are renumbered depth-first)
+        printf("\n");
       }
       jb_armed = 0;
       fflush(stdout);
